@@ -6,7 +6,9 @@ membership test on MC_Print's universe and writes every type with all its texts.
 (vh print types) builds each type with the constructors (several insertion orders) and from every
 text, requires everything the implementation prints to be one of the specification's texts and to
 parse back to the type, parses EVERY text of PrintSet(T), and runs `pool~ ? T $]` (the internal
-re-parse of type_filter.rs) against the specification's Matches on run-time tags.
+re-parse of type_filter.rs) against the specification's Matches on run-time tags.  Near misses
+(texts with one token dropped / replaced) check that the parser model and the pest grammar agree on
+what is rejected, what is accepted as a prefix, and which type that prefix denotes.
 Other direction: seeded random deeper types are printed by the implementation and every record is
 validated by TLC (MC_PrintTrace: the token sequence is in PrintSet(T) and parses to T)."""
 import json
@@ -20,13 +22,13 @@ def run(tier):
     chk = C.Check("C15", tier)
     out = C.workdir("print_types_" + tier)
     # ---- the model: laws + emission
-    res = C.run_tlc("MC_Print", "MC_Print_thorough.cfg" if thorough else "MC_Print.cfg", workers=4,
+    res = C.run_tlc("MC_Print", "MC_Print_thorough.cfg" if thorough else "MC_Print.cfg", workers=8 if thorough else 4,
                     timeout=3000 if thorough else 600, env_extra={"VERIF_OUT": out}, name="print_" + tier)
     C.require_tlc_ok(res, "MC_Print (round trip, unambiguous, parentheses needed, filter context, membership)")
     chk.add_tlc("MC_Print", res, "invariants: RoundTrip (every ordering parses, whole text, to the same tree and "
                 "to T), Unambiguous (global on the depth-2 universe + pairwise on the look-alikes), ParensNeeded, "
-                "FilterContext, MembershipAgrees, |PrintSet| = |Orderings| = OrderingCount")
-    m = re.search(r'<<"PRINT_UNIVERSE", (\d+), (\d+), (\d+), (\d+)>>', res.out)
+                "FilterContext, MembershipAgrees, |PrintSet| = |Orderings| = OrderingCount, ParsePrintsBack on near misses")
+    m = re.search(r'<<"PRINT_UNIVERSE", (\d+), (\d+), (\d+), (\d+), (\d+)>>', res.out)
     if not m:
         raise C.ToolError("MC_Print did not report its universe")
     # ---- spec -> impl
@@ -35,18 +37,20 @@ def run(tier):
     r = json.loads(txt)
     if "error" in r:
         raise C.ToolError("vh print types: " + r["error"])
-    for mm in r["mismatches"]:
+    def size(mm):
+        return len(str(mm.get("text") or mm.get("printed") or mm.get("program") or mm.get("type") or ""))
+    for mm in sorted(r["mismatches"], key=size):   # simplest failing text first
         sig = {"kind": mm["kind"], "type": mm.get("type"),
                "text": mm.get("text", mm.get("printed", mm.get("program")))}
         chk.violation(sig, mm)
     # ---- impl -> spec: random deeper types, validated by TLC
-    n, depth = (6000, 6) if thorough else (500, 5)
+    n, depth = (20000, 7) if thorough else (500, 5)
     trace = os.path.join(out, "gen_types.ndjson")
     rc, txt = C.run_vh(["print", "gentypes", str(n), str(depth), trace])
     g = json.loads(txt)
     for mm in g["mismatches"]:
         chk.violation({"kind": "gen_" + mm["kind"], "type": mm.get("type"), "text": mm.get("printed")}, mm)
-    tres = C.run_tlc("MC_PrintTrace", "MC_PrintTrace.cfg", workers=4, timeout=1800,
+    tres = C.run_tlc("MC_PrintTrace", "MC_PrintTrace.cfg", workers=8 if thorough else 4, timeout=1800,
                      env_extra={"VERIF_IN": trace}, name="print_trace_" + tier)
     C.require_tlc_ok(tres, "MC_PrintTrace (validation of printed random types)")
     chk.add_tlc("MC_PrintTrace", tres, "every recorded text is in PrintSet(T) and parses to T")
@@ -63,7 +67,7 @@ def run(tier):
                                    "or does not parse to T", "record": rec})
     cov = chk.cov
     cov["traces_validated_against_impl"] = (r["parsed_texts"] + r["printed_instances"] + r["filter_programs"]
-                                            + g["records"])
+                                            + r["near_misses"] + g["records"])
     cov["evaluations"] = r["evaluations"] + 2 * g["records"]
     cov["distinct_nontrivial"] = r["texts"] - 7 + g["distinct_types"]
     cov["rule"] = ("distinct (type, ordering) texts of the universe, each parsed with Type::from_str (the 7 leaf "
@@ -76,6 +80,7 @@ def run(tier):
     cov["types_with_several_texts"] = r["types_with_several_texts"]
     cov["of_which_impl_showed_several"] = r["of_which_impl_showed_several"]
     cov["filter_programs"] = r["filter_programs"]
+    cov["near_misses"] = {"texts": r["near_misses"], "accepted_as_prefix_by_both": r["near_misses_accepted_as_prefix"]}
     cov["random_types"] = {"generated": g["generated"], "distinct": g["distinct_types"], "records": g["records"],
                            "max_nesting": g["max_nesting"], "rejected_by_tlc": len(rejected)}
     cov["mismatch_counts"] = r["mismatch_counts"]
